@@ -27,7 +27,7 @@ PICTURES = [os.path.join(VERIF, "corpus", "pictures", n + ".raw") for n in ("squ
 CODECS = ["minimal", "ld", "lossless", "frag", "fields", "c420", "asym", "customqm",
           # several near-identical columns of the twin corpus at once: their
           # worker commands interleave on one simulated file system
-          "twins:minimal|minimal_twin", "twins:qm_a|qm_b|minimal_pb", "twins:frag|frag2", "twins:ld|ld_pb|lossless"]
+          "twins:minimal|minimal_twin", "twins:qm_a|qm_b|minimal_pb", "twins:frag|frag2", "twins:ld|ld_pb|lossless", "twins:tw 4:4:4|tw 4_4_4|tw 4\\.4\\.4"]
 
 
 def codec_args(codec):
@@ -227,8 +227,9 @@ TWIN_FAMILIES = {
     "lossless": ["lossless", "lossless_10bit"],
     "ld": ["ld", "ld_pb"],
     "frag": ["frag", "frag2"],
+    "names": ["tw 4:4:4", "tw 4_4_4", "tw 4.4.4"],
 }
-TWIN_QUICK = [["minimal", "qm", "fields"], ["lossless", "ld", "frag"]]
+TWIN_QUICK = [["minimal", "qm", "names"], ["lossless", "ld", "frag", "fields"]]
 
 
 def fresh_python_start(args, hash_seed):
@@ -394,7 +395,9 @@ class C24(Spec):
         stats = Counter()
         cols = [c for f in case["families"] for c in TWIN_FAMILIES.get(f, [])]
         csvpath = os.path.join(VERIF, "corpus", case["csv"])
-        regex = "^(%s)$" % "|".join(cols)
+        import re as _re
+
+        regex = "^(%s)$" % "|".join(_re.escape(c) for c in cols)
         scratch = tempfile.mkdtemp(prefix="vc2_c24m_", dir="/var/tmp")
         events = [("multi", case["csv"], list(case["families"]), case["hash_seeds"], case["groups"], case["order_seed"])]
         key = "multi|%s|%s" % (case["csv"], "+".join(case["families"]))
